@@ -1,6 +1,6 @@
 (* C10 - forwarded bursts carry faithful bits and correct simulated radio metadata. Statements only. *)
 From Coq Require Import ZArith List Bool.
-From OBB Require Import Gen.TrxdConst Gen.FakeTrxConst Gen.TscTab Model.Trxd Model.Trx Proofs.TrxdRxRT Proofs.TrxMeta Proofs.TrxMeta2.
+From OBB Require Import Gen.TrxdConst Gen.FakeTrxConst Gen.TscTab Model.Trxd Model.Trx Proofs.TrxdRxRT Proofs.TrxMeta Proofs.TrxMeta2 Proofs.TrxTsc.
 Import ListNotations.
 Open Scope Z_scope.
 
@@ -71,6 +71,15 @@ Theorem c10_tsc_access_burst : forall c s bits data, In (c, 1, s, bits) spec_tsc
 Proof. exact ab_detected. Qed.
 Print Assumptions c10_tsc_access_burst.
 
-(* PARTIAL (c10_tsc_generated for normal and sync bursts): the statement "a normal / sync burst built by the generator with
-   sequence t is reported with t's TSC" needs the side condition that no earlier-enumerated (access) sequence also matches at
-   its own position inside the random payload; it is not proved here, the correspondence run exercises it with the real generator. *)
+(* normal and sync bursts as the generator builds them (3 tail bits, data, [steal flag,] sequence, [steal flag,] data, 3 tail bits), with ANY data bits:
+   the embedded sequence's TSC / TSC set is reported, provided no access-burst sequence (enumerated earlier) happens to sit at bits 8..48 of the
+   payload - the side condition the detection rule itself imposes; that a sync sequence never matches inside a normal burst is discharged here *)
+Theorem c10_tsc_normal_burst : forall c s bits d1 d2 s1 s2, In (c, 0, s, bits) spec_tsc_tab -> length d1 = 57%nat ->
+  no_ab_match (layout_nb bits d1 d2 s1 s2) -> tsc_of (layout_nb bits d1 d2 s1 s2) = (c, s).
+Proof. exact nb_detected. Qed.
+Print Assumptions c10_tsc_normal_burst.
+
+Theorem c10_tsc_sync_burst : forall c s bits d1 d2, In (c, 2, s, bits) spec_tsc_tab -> length d1 = 39%nat ->
+  no_ab_match (layout_sb bits d1 d2) -> tsc_of (layout_sb bits d1 d2) = (c, s).
+Proof. exact sb_detected. Qed.
+Print Assumptions c10_tsc_sync_burst.
